@@ -387,10 +387,13 @@ fn site_case(tape: &[u16], j1: MV, j2: MV) -> Case {
             defs.push(format!("f = k => k * 100 + ({})", print_min(&b)));
         }
         6 => {
-            defs.push("f = f => [f, k]".into());
+            // a parameter that carries the function's own name is the argument, not the function
+            defs.push(["f = f => [f, k]", "f = (a?, f?) => [f ?? a, k]", "f = (...f) => [f[0], k]"][t.pick(3)].into());
+            expect = Some("[3, k]".into());
         }
         7 => {
             defs.push("f = inputs => [inputs, k]".into());
+            expect = Some("[3, k]".into());
         }
         8 => {
             // record shorthand and do-block rebinding of a captured name
